@@ -211,4 +211,57 @@ def gen_loess_state(repo=None):
     return '\n'.join(lines) + '\n'
 
 
-GENERATORS = {'GenLoessState': gen_loess_state}
+def _matexpr(node, a, b):
+    """normal form of a small matrix expression over the two parameters: A, B, transpose, product; anything else is refused
+    (an added ridge, a scaling, a pinv/lstsq call, an in-place update ... changes what is solved)"""
+    if isinstance(node, ast.Name):
+        if node.id == a:
+            return 'SA'
+        if node.id == b:
+            return 'SB'
+        raise TranslateError(f'_loess_solver: name {node.id} in the solved system')
+    if isinstance(node, ast.Attribute) and node.attr == 'T':
+        return f'(ST {_matexpr(node.value, a, b)})'
+    if isinstance(node, ast.BinOp) and isinstance(node.op, ast.MatMult):
+        return f'(SDot {_matexpr(node.left, a, b)} {_matexpr(node.right, a, b)})'
+    if isinstance(node, ast.Call) and not node.keywords:
+        f = node.func
+        if isinstance(f, ast.Attribute) and f.attr == 'dot' and len(node.args) == 1 and not (isinstance(f.value, ast.Name) and f.value.id == 'np'):
+            return f'(SDot {_matexpr(f.value, a, b)} {_matexpr(node.args[0], a, b)})'
+        if isinstance(f, ast.Attribute) and f.attr == 'dot' and isinstance(f.value, ast.Name) and f.value.id == 'np' and len(node.args) == 2:
+            return f'(SDot {_matexpr(node.args[0], a, b)} {_matexpr(node.args[1], a, b)})'
+        if isinstance(f, ast.Attribute) and f.attr == 'transpose' and not node.args:
+            return f'(ST {_matexpr(f.value, a, b)})'
+    raise TranslateError(f'_loess_solver: unsupported expression in the solved system: {ast.unparse(node)[:80]}')
+
+
+def gen_loess_solver(repo=None):
+    """GenLoessSolver: the body of polynomial._loess_solver as a term: exactly `return np.linalg.solve(<lhs>, <rhs>)`
+    with lhs, rhs products/transposes of the two parameters, nothing added (fail closed)."""
+    tree, _ = _parse(REL, repo)
+    fns = [st for st in tree.body if isinstance(st, ast.FunctionDef) and st.name == '_loess_solver']
+    if len(fns) != 1:
+        raise TranslateError('_loess_solver not found')
+    fn = fns[0]
+    _plain_function(fn, 'polynomial._loess_solver')
+    params = [x.arg for x in fn.args.args]
+    if len(params) != 2 or fn.args.vararg or fn.args.kwarg or fn.args.kwonlyargs:
+        raise TranslateError(f'_loess_solver: unexpected signature {params}')
+    body = [st for st in fn.body if not (isinstance(st, ast.Expr) and isinstance(st.value, ast.Constant))]
+    if len(body) != 1 or not isinstance(body[0], ast.Return) or body[0].value is None:
+        raise TranslateError('_loess_solver: body is not a single return statement '
+                             f'({"; ".join(ast.unparse(st)[:60] for st in body)})')
+    call = body[0].value
+    if not (isinstance(call, ast.Call) and ast.unparse(call.func) == 'np.linalg.solve' and len(call.args) == 2 and not call.keywords):
+        raise TranslateError(f'_loess_solver: does not return np.linalg.solve(lhs, rhs): {ast.unparse(call)[:100]}')
+    lhs = _matexpr(call.args[0], params[0], params[1])
+    rhs = _matexpr(call.args[1], params[0], params[1])
+    lines = ['(* Generated by tools/gen_loess_state.py from the current /repo source; do not edit. *)',
+             '(* SA = first parameter (the transposed, kernel- and weight-scaled design matrix), SB = second parameter *)',
+             'Inductive sexpr := SA | SB | ST (e : sexpr) | SDot (a b : sexpr).',
+             f'Definition loess_solver_lhs : sexpr := {lhs}.',
+             f'Definition loess_solver_rhs : sexpr := {rhs}.']
+    return '\n'.join(lines) + '\n'
+
+
+GENERATORS = {'GenLoessState': gen_loess_state, 'GenLoessSolver': gen_loess_solver}
